@@ -20,15 +20,18 @@ ASPECTS = {
     "C05.entry": ("fresh", "adaptor-len", "tail-ok"),
     "C07.entry": ("shape", "fresh", "adaptor-len", "tail-err"),
     # the leniency flags act inside the string scanner only: no entry point branches on them or decodes its input differently
-    "C12.entry": ("shape", "options", "source"),
+    "C12.entry": ("options", "options-free"),
 }
 
 
-def entry_rule(ctx, res, rule="C01.entry", aspects=None):
+def entry_rule(ctx, res, rule="C01.entry", aspects=None, only_with_options=False, skip_roots=()):
     P = ctx.P
     A = set(aspects if aspects is not None else ASPECTS[rule])
     n = 0
+    expected = len([1 for r, (ho, _) in entry.ENTRY_ROOTS.items() if (ho or not only_with_options) and r not in skip_roots])
     for root, (has_opts, kind) in sorted(entry.ENTRY_ROOTS.items()):
+        if (only_with_options and not has_opts) or root in skip_roots:
+            continue
         if root not in P.roots:
             res.violation(rule, rule + "/missing-root/" + root, "harness root %s is missing (anchor lost)" % root)
             continue
@@ -70,6 +73,12 @@ def entry_rule(ctx, res, rule="C01.entry", aspects=None):
                     ok = isinstance(o_val, Agg) and tuple(o_val.fields) == (Conc(0), Conc(0))
                     res.ob(ok, rule, pkey + "/options", "%s must parse with strict default options (both flags false), parser record has %r" % (root, o_val),
                            sample={"entry": root, "options": "strict (false,false) from Options::default()"})
+            if "options-free" in A and opt_syms:
+                # no decision of the entry point depends on a leniency flag: on every path to the core both flags are unconstrained
+                from .. import iset as _iset
+                free = all(o.cons.get(sy.id) == _iset.BOOL for sy in opt_syms) and not any(_mentions_any(p_, opt_syms) for p_, _ in o.preds)
+                res.ob(free, rule, pkey + "/options-free", "%s decides something on a leniency flag before the parser runs (path condition on the options: %r)" % (
+                    root, [(sy.id, o.cons.get(sy.id)) for sy in opt_syms]), sample={"entry": root, "flags": "not consulted outside the parser"})
             if "fresh" in A:
                 res.ob(isinstance(fld.get("pending"), Agg) and fld["pending"].variant == 0, rule, pkey + "/pending",
                        "%s: the lookahead slot of a fresh parser must be empty" % root)
@@ -95,15 +104,25 @@ def entry_rule(ctx, res, rule="C01.entry", aspects=None):
             adaptor_rule(ctx, res, root, key, rule, A)
         if "utf8" in A and kind == "bytes":
             utf8_rule(ctx, res, root, key, forms)
-    res.floor(rule, "entry_points_analysed", 13)
+    res.floor(rule, "entry_points_analysed", expected)
     if A & {"adaptor-char", "adaptor-len"}:
-        res.floor(rule, "adaptors_analysed", 13)
+        res.floor(rule, "adaptors_analysed", expected)
     if "source" in A:
-        res.floor(rule, "character_sources_analysed", 13)
+        res.floor(rule, "character_sources_analysed", expected)
     if "utf8" in A:
         res.floor("C01.utf8", "byte_decoders_analysed", 2)
     if A & {"tail-ok", "tail-err", "tail-verdict"}:
-        res.floor(rule, "core_result_shapes_analysed", 13)
+        res.floor(rule, "core_result_shapes_analysed", expected)
+
+
+def _mentions_any(e, syms):
+    ids = set(s_.id for s_ in syms)
+    from ..absint import Expr as _Expr
+    if isinstance(e, Sym):
+        return e.id in ids
+    if isinstance(e, _Expr):
+        return any(_mentions_any(a, syms) for a in e.args)
+    return False
 
 
 def input_local(P, root):
